@@ -18,13 +18,19 @@ import IgrisModel.C12.LemF32
   strtod returns to within a few ulps and reports the end of the literal, for
   the float, double and libc strtod/atof entry points alike."
 
-  Level "proof (partial)": the clauses about shape, grammar and accuracy over
-  EXACT arithmetic (`FloatLike Rat`) are theorems below.  NOT proved (named
-  gap): that the roundings of binary32/binary64 arithmetic in the digit loops
-  keep every digit in 0..9 and the error within "one unit plus representation
-  error" — that part is carried by the correspondence run (all 2^32 binary32
-  patterns on the compiled code against an error-bound oracle, and the software
-  binary32/64 instance of this same model against the code bit for bit).
+  Level "proof (partial)".  Sections A-E: shape for every arithmetic instance,
+  accuracy / grammar over EXACT arithmetic (`FloatLike Rat`, theorems `_Q`), debug
+  printers, historical witnesses.  Sections F-H (extension round): IEEE-754
+  arithmetic is part of the model — the software binary32/binary64 the driver
+  runs is PROVED to be round-to-nearest arithmetic (`softfloat_rounds_to_nearest`,
+  instances `IEEE F32`, `IEEE F64`), and the accuracy clauses are THEOREMS ABOUT
+  THAT FLOAT INSTANCE: `ftoa_error_bound`, `ftoa_total`,
+  `ftoa_within_one_unit_partial` (+ 2 witnesses), `f64toa_error_bound`
+  (+ witness), `atof64_error_bound_partial`, `atof64_budget`,
+  `atof64_exact_class` (+ 2 witnesses).  NOT proved: an IEEE error bound for
+  `igris_atof32` (division has no rounding law yet) and for the debug printers;
+  the agreement of the soft-float with the FPU and of the transcription with the
+  C code is tested on every run, not proved.
 -/
 namespace Igris.C12
 open Spec FloatLike
@@ -419,9 +425,9 @@ theorem ftoa_total (x : F32) (prec : Int) (buf : List Nat) (hx : x.Fin) (hr : ab
 
 /-- "WITHIN ONE UNIT of the last printed digit" holds where the float has the digits:
     whenever `10^p * (|x| + 2) ≤ 2^23` (e.g. p ≤ 6 for |x| ≤ 6, p ≤ 5 for |x| ≤ 81,
-    p ≤ 2 for |x| ≤ 83884; always for the automatic precision, which prints at most
-    6 significant digits).  The statement without this hypothesis is false, see the
-    two witnesses. -/
+    p ≤ 2 for |x| ≤ 83884; the automatic-precision table keeps 10^p * (|x| + 2) below
+    3.1e6 < 2^23, but that connection is not a theorem here).  The statement without
+    this hypothesis is false, see the two witnesses. -/
 theorem ftoa_within_one_unit_partial (x : F32) (prec : Int) (hx : x.Fin) (hr : absQ x.val < 2147483648)
     (hd : (10 : Rat) ^ effPrec (if lt x (ofInt 0) then FloatLike.neg x else x) prec * (absQ x.val + 2) ≤ 8388608) :
     ∃ (p : Nat) (ip fr : List Nat),
